@@ -28,7 +28,8 @@ def guard_of(base):
 def gen_name(d, allow_dot=True):
     s = d.choice("abcdefghijklmnopqrstuvwxyz")
     for _ in range(d.int(0, 6)):
-        s += d.weighted([(12, d.choice("abcdefghijklmnopqrstuvwxyz")), (2, d.choice("0123456789")), (2, "_"), (1, " "), (1, "."), (1, d.choice("ABCXYZ"))])
+        s += d.weighted([(12, d.choice("abcdefghijklmnopqrstuvwxyz")), (2, d.choice("0123456789")), (2, "_"), (1, " "), (1, "."), (1, d.choice("ABCXYZ")),
+                                     (1, d.choice(["é", "ü", "ñ", "λ", "-", "+", "'", '"', "#", "~", "$", "@", "[", "]", "(", ")", "&", ";", "=", ",", "!", "%", "{", "}", "^", "`", "\\", "*", "?"]))])
     s = s.strip(" .")
     while ".." in s:
         s = s.replace("..", ".")
@@ -51,7 +52,7 @@ def gen_tree(d, depth=0, prefix=""):
         rel = prefix + n
         if n.endswith(".h"):
             g = guard_of(n)
-            out[rel] = CLEAN_H % (g, g) if g.replace("_", "a").isalnum() and not g[0].isdigit() else None
+            out[rel] = CLEAN_H % (g, g) if g.isascii() and g.replace("_", "a").isalnum() and not g[0].isdigit() else None
             if out[rel] is None:
                 del out[rel]
                 names.discard(n)
@@ -84,7 +85,7 @@ def gen_ignore(d, tree):
     lines = []
     files = [p for p, c in tree.items() if c is not None]
     dirs = [p.rstrip("/") for p, c in tree.items() if c is None]
-    esc = lambda v: v.replace(" ", "\\ ")
+    esc = lambda v: "".join("\\" + ch if ch in " \\*?[]#!" else ch for ch in v)
     for _ in range(d.int(0, 4)):
         k = d.weighted([(3, "name"), (2, "dir"), (3, "ext"), (2, "neg-name"), (1, "neg-ext"), (1, "path"), (1, "dirglob"), (1, "comment"), (1, "starstar")])
         if k == "name" and files:
